@@ -65,7 +65,8 @@ func (f *fetchResult) getResponse() (data io.ReadCloser, header http.Header, sta
 	case fetchTypeDirect:
 		return f.Direct.Response.Body, f.Direct.Response.Header, f.Direct.UpstreamStatus
 	case fetchTypeCached:
-		return f.Cached.Entry.Data, f.Cached.Entry.Metadata.Object.Header, f.Cached.UpstreamStatus
+		// A cached entry is always a stored 200 response. UpstreamStatus is 0 on a hit and 304 after a revalidation.
+		return f.Cached.Entry.Data, f.Cached.Entry.Metadata.Object.Header, http.StatusOK
 	}
 	return nil, nil, 0
 }
